@@ -74,10 +74,16 @@ fn check_table<E: EndianParse>(t: &SymbolVersionTable<'_, E>, model: &VerModel, 
     Ok(())
 }
 
-fn standalone<E: EndianParse>(e: E, class: Class, s: &VerSections, model: &VerModel, obs: &mut Obs) -> Result<(), String> {
+fn standalone<E: EndianParse>(e: E, class: Class, s: &VerSections, model: &VerModel, lead: (usize, usize), obs: &mut Obs) -> Result<(), String> {
     let ids = VersionIndexTable::new(e, class, &s.versym);
-    let needs = if model.needs.is_empty() { None } else { Some((VerNeedIterator::new(e, class, model.needs.len() as u64, 0, &s.verneed), StringTable::new(&s.need_strs))) };
-    let defs = if model.defs.is_empty() { None } else { Some((VerDefIterator::new(e, class, model.defs.len() as u64, 0, &s.verdef), StringTable::new(&s.def_strs))) };
+    // the record sections may be handed over with leading bytes and the matching starting offset
+    let mut vn = vec![0xA5u8; lead.0];
+    vn.extend_from_slice(&s.verneed);
+    let mut vd = vec![0x5Au8; lead.1];
+    vd.extend_from_slice(&s.verdef);
+    let needs = if model.needs.is_empty() { None } else { Some((VerNeedIterator::new(e, class, model.needs.len() as u64, lead.0, &vn), StringTable::new(&s.need_strs))) };
+    let defs = if model.defs.is_empty() { None } else { Some((VerDefIterator::new(e, class, model.defs.len() as u64, lead.1, &vd), StringTable::new(&s.def_strs))) };
+    obs.label_if(lead.0 != 0 || lead.1 != 0, "nonzero_starting_offset");
     let t = SymbolVersionTable::new(ids, needs, defs);
     check_table(&t, model, !model.needs.is_empty(), !model.defs.is_empty(), obs, "SymbolVersionTable::new")
 }
@@ -94,7 +100,10 @@ fn oracle(case: &[u8], obs: &mut Obs) -> Result<(), String> {
     let s = refs::build_versions(enc, &model, &mut c, contiguous, share);
     let via = c.below(3);
     match via {
-        0 => with_endian!(spec, |e| standalone(e, class, &s, &model, obs))?,
+        0 => {
+            let lead = if c.chance(100) { (c.below(40) as usize, c.below(40) as usize) } else { (0, 0) };
+            with_endian!(spec, |e| standalone(e, class, &s, &model, lead, obs))?
+        }
         _ => {
             // through a complete file: .gnu.version / .gnu.version_r / .gnu.version_d wired by sh_link / sh_info
             let mut f = FileSpec::new(enc);
